@@ -1,9 +1,165 @@
-(* Properties/C14.v — freighter streams deliver in order, once, with a definite end. *)
-From Coq Require Import List NArith Bool.
-From Synnax Require Import Generated.Consts_C14 Freighter.Stream Monitors.Mon_C14.
-Import ListNotations.
+(* Properties/C14.v — Freighter streams deliver in order, once, with a definite end, on all
+   transports. Only statements, each closed by [exact], each followed by Print Assumptions.
 
+   Objects: [run prof t init tr = Some s] — tr is a trace (any interleaving of client and handler
+   calls, any length) of the stream LTS of Freighter/Stream.v for profile prof (0 = exactly
+   mock/stream.go, 1 = the documented contract of stream.go) on transport t (0 mock, 1/2
+   websocket json/msgpack, 3/4 grpc external/internal), ending in state s.
+   c_sent / h_got / h_sent / c_got: payloads of the successful client Sends, of the values the
+   handler received, of the successful handler Sends, of the values the client received. *)
+From Coq Require Import List NArith Bool String.
+From Synnax Require Import Generated.Consts_C14 Freighter.Stream Freighter.StreamProofs
+  Monitors.Mon_C14 Freighter.StreamErrors Freighter.StreamSafety Freighter.StreamOrder
+  Freighter.StreamRefine.
+Import ListNotations.
+Local Open Scope N_scope.
+
+(* (1) Each receiving side sees a prefix of the messages sent, in send order, without
+   duplicates or loss: sent = received ++ exactly what is still in flight. *)
+Theorem C14_order_once : forall prof t tr s,
+  run prof t init tr = Some s ->
+  c_sent tr = h_got tr ++ somes (req s) /\ h_sent tr = c_got tr ++ lefts (res s).
+Proof. exact order_once. Qed.
+Print Assumptions C14_order_once.
+
+(* (2) When the client has read the terminal result o: the handler has returned some e, every
+   response sent before the return was received (received = sent, nothing left in flight), and
+   o is end-of-stream for a nil result, otherwise an error matching e (same registered kind). *)
+Theorem C14_terminal_result : forall prof t tr s o,
+  run prof t init tr = Some s -> c_recvErr s = Some o ->
+  c_got tr = h_sent tr /\ res s = [] /\ returned s = true /\
+  exists e, In (HRet e) tr /\ matches e o = true.
+Proof. exact terminal_result. Qed.
+Print Assumptions C14_terminal_result.
+
+(* (3) Further calls keep returning that same terminal result (and change nothing). *)
+Theorem C14_terminal_sticky : forall prof t s o r s',
+  c_recvErr s = Some o -> step prof t s (CRecv r) = Some s' ->
+  s' = s /\ exists c i m, r = RErr c i m /\ o = (c, i, m).
+Proof. exact terminal_sticky. Qed.
+Print Assumptions C14_terminal_sticky.
+
+(* (4) When the handler has seen end-of-stream o: o is EOF, the client did call CloseSend, and
+   all earlier requests had been received (received = sent, nothing left in flight). *)
+Theorem C14_closesend_eof : forall prof t tr s o,
+  run prof t init tr = Some s -> s_recvErr s = Some o ->
+  fst (fst o) = cEOF /\ In (CClose ROk) tr /\ h_got tr = c_sent tr /\ req s = [].
+Proof. exact closesend_eof. Qed.
+Print Assumptions C14_closesend_eof.
+
+Theorem C14_handler_eof_sticky : forall prof t s o r s',
+  s_recvErr s = Some o -> step prof t s (HRecv r) = Some s' ->
+  s' = s /\ exists c i m, r = RErr c i m /\ o = (c, i, m).
+Proof. exact handler_eof_sticky. Qed.
+Print Assumptions C14_handler_eof_sticky.
+
+(* (5) ... and the client can still receive: CloseSend and Receive commute in every state. *)
+Theorem C14_closesend_keeps_receive : forall prof t s rc r s1 s2,
+  step prof t s (CClose rc) = Some s1 -> step prof t s (CRecv r) = Some s2 ->
+  exists s3, step prof t s1 (CRecv r) = Some s3 /\ step prof t s2 (CClose rc) = Some s3.
+Proof. exact closesend_keeps_receive. Qed.
+Print Assumptions C14_closesend_keeps_receive.
+
+(* (6) The decidable monitor ok_C14 (what the check applies to the implementation's
+   observations) holds of the two projections of every trace. *)
+Theorem C14_traces_satisfy_monitor : forall prof t tr s,
+  run prof t init tr = Some s ->
+  ok_C14 (filter is_client tr) (filter (fun l => negb (is_client l)) tr) = true.
+Proof. exact traces_ok. Qed.
+Print Assumptions C14_traces_satisfy_monitor.
+
+(* (7) The checker [accepts] decides trace inclusion exactly: it accepts per-side observation
+   lists iff they are the two projections of some trace (neither stricter nor laxer). *)
+Theorem C14_accepts_sound : forall prof t cl hl,
+  accepts prof t cl hl = true ->
+  exists tr s, run prof t init tr = Some s /\
+               filter is_client tr = cl /\ filter (fun l => negb (is_client l)) tr = hl.
+Proof. exact accepts_sound. Qed.
+Print Assumptions C14_accepts_sound.
+
+Theorem C14_accepts_complete : forall prof t tr s,
+  run prof t init tr = Some s ->
+  accepts prof t (filter is_client tr) (filter (fun l => negb (is_client l)) tr) = true.
+Proof. exact accepts_complete. Qed.
+Print Assumptions C14_accepts_complete.
+
+Theorem C14_accepts_ok : forall prof t cl hl,
+  accepts prof t cl hl = true -> ok_C14 cl hl = true.
+Proof. exact accepts_ok. Qed.
+Print Assumptions C14_accepts_ok.
+
+(* (8) The reference implementation refines the documented contract. *)
+Theorem C14_mock_refines_contract : forall t tr s,
+  run 0 t init tr = Some s -> run 1 t init tr = Some s.
+Proof. intros t tr s. apply strict_refines_contract. exact Inv_init. Qed.
+Print Assumptions C14_mock_refines_contract.
+
+(* (9) On every transport the error the client decodes matches the handler's error. *)
+Theorem C14_error_matches_on_every_transport : forall t e o,
+  img_ok (wire t e) o = true -> matches e o = true.
+Proof. exact wire_matches. Qed.
+Print Assumptions C14_error_matches_on_every_transport.
+
+(* (10) Error registry round trip: decode (encode e) is e's kind for every registered kind, with
+   any message, through the struct payload and through grpc's string form. *)
+Theorem C14_registry_roundtrip : forall s ty m internal,
+  In (s, ty) enc_rules ->
+  decode (encode internal (Err s false m)) = Img s 0 None /\
+  decode (transit unmarshal_split_all (encode internal (Err s false m))) = Img s 0 None.
+Proof. exact registry_roundtrip_all. Qed.
+Print Assumptions C14_registry_roundtrip.
+
+(* an error that wraps / descends from a registered sentinel arrives as that sentinel's kind *)
+Theorem C14_registry_degrades : forall k s ty m internal,
+  enc_rule k = Some (s, ty) ->
+  decode (encode internal (Err k false m)) = Img s 0 None /\ isa k s = true.
+Proof. exact registry_degrades. Qed.
+Print Assumptions C14_registry_degrades.
+
+Theorem C14_providers_disjoint :
+  forallb (fun ty => Nat.eqb (hits ty) 1) (flat_map prov_types providers) = true.
+Proof. exact providers_disjoint. Qed.
+Print Assumptions C14_providers_disjoint.
+
+(* Finding F16 (fixed in /repo): with Payload.Unmarshal splitting at every "---" a registered
+   kind whose message contains the separator does not match any more over grpc. *)
+Theorem C14_split_all_refuted :
+  let e := Err 4 false [1; 2] in
+  enc_rule (e_kind e) = Some (4, "sy.query.unique_violation"%string) /\
+  img_matches e (wire_gen true 3 (Some e)) = false /\
+  img_matches e (wire_gen false 3 (Some e)) = true.
+Proof. exact split_all_refuted. Qed.
+Print Assumptions C14_split_all_refuted.
+
+(* The round trip is for registered kinds only: sentinels no provider encodes do not come back
+   as themselves (control.ErrControl, validate.ErrRequired). *)
+Theorem C14_unregistered_sentinel_refuted :
+  decode (encode false (Err 8 false [1])) = Img cOther 0 (Some [1]) /\
+  decode (encode false (Err 10 false [1])) = Img 9 0 None /\
+  ~ In 8 (map fst enc_rules) /\ ~ In 10 (map fst enc_rules).
+Proof. exact unregistered_sentinels_refuted. Qed.
+Print Assumptions C14_unregistered_sentinel_refuted.
+
+(* the contract is strictly laxer than the mock where two documented failure clauses overlap *)
+Theorem C14_contract_strictly_laxer :
+  let tr := [HRet None; CClose ROk; CRecv (RErr cEOF 0 []); CSend 5 (RErr cEOF 0 [])] in
+  (exists s, run 1 0 init tr = Some s) /\ run 0 0 init tr = None.
+Proof. exact contract_strictly_laxer. Qed.
+Print Assumptions C14_contract_strictly_laxer.
+
+(* Non-vacuity: a trace with traffic in both directions, CloseSend, a handler error of a
+   registered kind with a separator in its message over grpc, repeated terminal reads and a
+   Send after the end — it is a trace, every hypothesis of (2) and (4) is met, and a trace that
+   reorders two responses is not accepted. *)
+Definition ex_tr : list lab :=
+  [CSend 1 ROk; CSend 2 ROk; HRecv (RVal 1); HSend 7 ROk; CClose ROk; HRecv (RVal 2);
+   HSend 8 ROk; CRecv (RVal 7); HRecv (RErr 1 0 [9]); HRecv (RErr 1 0 [9]);
+   HRet (Some (Err 3 false [5; 6])); CSend 3 (RErr 2 0 [4]); CRecv (RVal 8);
+   CRecv (RErr 3 0 [5; 6; 7]); CRecv (RErr 3 0 [5; 6; 7]); CSend 4 (RErr 2 0 [4])].
 Example C14_nonvacuous :
-  accepts 0%N 0%N [CSend 1%N ROk; CRecv (RVal 7%N); CRecv (RErr 1%N 0%N []); CRecv (RErr 1%N 0%N [])]
-              [HRecv (RVal 1%N); HSend 7%N ROk; HRet None] = true.
-Proof. vm_compute. reflexivity. Qed.
+  (exists s, run 0 3 init ex_tr = Some s /\ c_recvErr s = Some (3, 0, [5; 6; 7]) /\
+             s_recvErr s = Some (1, 0, [9])) /\
+  accepts 0 3 (filter is_client ex_tr) (filter (fun l => negb (is_client l)) ex_tr) = true /\
+  accepts 1 3 [CRecv (RVal 8); CRecv (RVal 7)] [HSend 7 ROk; HSend 8 ROk; HRet None] = false /\
+  ok_C14 [CRecv (RVal 8); CRecv (RVal 7)] [HSend 7 ROk; HSend 8 ROk; HRet None] = false.
+Proof. split; [eexists; split; [vm_compute; reflexivity|split; reflexivity]|]. vm_compute. auto. Qed.
